@@ -139,8 +139,16 @@ def run(ctx: core.Run):
     for sub in ("descriptors", "layers-minimal", "effects"):
         fs = sorted((FIX / sub).glob("*.ps[db]"), key=lambda p: p.stat().st_size)
         pool += fs[: (1 if quick else 6)]
-    ops = ["lowlevel", "open_save", "describe", "composite", "edit_save"]
+    ops = ["lowlevel", "structure", "open_save", "describe", "composite", "edit_save"]
     steps = [(op, str(p)) for p in pool for op in ops]
+    # unusual documents: a fixture with one tagged-block payload emptied (most are rejected by the reader; what
+    # matters is that reading them leaves no trace for the documents read afterwards)
+    import atexit, shutil, tempfile
+    scratch = Path(tempfile.mkdtemp(prefix="verif-c20-"))
+    atexit.register(shutil.rmtree, scratch, True)
+    variants = _emptied_variants(pool[: (3 if quick else 10)], scratch, rng, 6 if quick else 40)
+    steps += [("structure", str(v)) for v in variants]
+    ctx.extra["emptied_payload_variants"] = len(variants)
     steps += [("build", "4"), ("build", "7")]
     # descriptor-level steps aimed at the one place where history used to matter
     unknown = b"alis"
@@ -148,6 +156,9 @@ def run(ctx: core.Run):
         ("desc_read", hx(desc_body(unknown, explicit=False))),
         ("desc_read", hx(desc_body(b"qZ9!", explicit=False))),
         ("desc_read", hx(desc_body(b"warp", explicit=True))),
+        ("desc_read", hx(desc_body(unknown, explicit=True))),
+        ("desc_read", hx(desc_body(b"qZ9!", explicit=True))),
+        ("desc_read", hx(desc_body(b"warp", explicit=False))),
         ("desc_build", hx(unknown)), ("desc_build", hx(b"qZ9!")), ("desc_build", hx(b"warp")),
         ("desc_build", hx(b"ab")), ("desc_build", hx(b"Nm  ")),
         ("desc_read_trunc", hx(desc_body(unknown, explicit=False)[:-9] )),
@@ -169,13 +180,15 @@ def run(ctx: core.Run):
     with ThreadPoolExecutor(max_workers=10) as ex:
         hist = list(ex.map(lambda o: run_session([list(s) for s in o], timeout=1800), orders))
     changed_hist = sorted({c for r in hist for c in r["changed_cells"]})
+    nshrunk = [0]
     for o, r in zip(orders, hist):
         for pos, (st, res) in enumerate(zip(o, r["results"])):
             ctx.count(("session", st, pos), nontrivial=not res.startswith("EXC:") and res != "skipped-large")
             ctx.hist("session_op", st[0])
             if res != alone_res[tuple(st)]:
-                # shrink: which earlier step is responsible?
-                culprit = _shrink(o[:pos], st, alone_res[tuple(st)])
+                # shrink: which earlier step is responsible? (bounded: the first few distinct failures only)
+                nshrunk[0] += 1
+                culprit = _shrink(o[:pos], st, alone_res[tuple(st)]) if nshrunk[0] <= 4 else o[:pos]
                 ctx.fail(f"C20/history-dependent/{st[0]}/{Path(st[1]).name if '/' in st[1] else st[1][:16]}",
                          f"{st[0]} gives a different result after other sessions than alone in a fresh interpreter",
                          {"step": list(st), "history": [list(x) for x in culprit]}, res, alone_res[tuple(st)])
@@ -213,6 +226,45 @@ def run(ctx: core.Run):
         ctx.recheck(["PsdVerif.Props.C20"])
 
 
+def _emptied_variants(files, scratch: Path, rng, limit):
+    """Copies of fixtures in which the payload of one tagged block of one layer record is emptied."""
+    from psd_tools.psd import PSD
+    out = []
+    cands = []
+    for f in files:
+        try:
+            with open(f, "rb") as fp:
+                psd = PSD.read(fp)
+            li = psd.layer_and_mask_information.layer_info
+            if li is None or not li.layer_records:
+                continue
+            for ri, rec in enumerate(li.layer_records):
+                for key in list(rec.tagged_blocks.keys()):
+                    cands.append((f, ri, key))
+        except Exception:  # noqa
+            continue
+    rng.shuffle(cands)
+    seen_keys = set()
+    for f, ri, key in cands:
+        if len(out) >= limit:
+            break
+        if key in seen_keys:
+            continue
+        seen_keys.add(key)
+        try:
+            with open(f, "rb") as fp:
+                psd = PSD.read(fp)
+            rec = psd.layer_and_mask_information.layer_info.layer_records[ri]
+            rec.tagged_blocks[key].data = b""
+            p = scratch / f"{Path(f).stem}-r{ri}-{getattr(key, 'name', str(key))}{Path(f).suffix}"
+            with open(p, "wb") as fp:
+                psd.write(fp)
+            out.append(p)
+        except Exception:  # noqa
+            continue
+    return out
+
+
 def _shrink(prefix, st, expected):
     """Smallest sub-history after which `st` still differs from its alone result."""
     def bad(h):
@@ -241,17 +293,60 @@ def _default_pairs(ctx):
                 continue
             n += 1
             ctx.count(("defaults", cls.__name__))
-            for f in attr.fields(cls):
-                va, vb = getattr(a, f.name, None), getattr(b, f.name, None)
-                shared = va is vb and (isinstance(va, mutable) or (attr.has(type(va)) and not isinstance(va, type)))
-                inner = False
-                if not shared and hasattr(va, "_items") and hasattr(vb, "_items"):
-                    inner = va._items is vb._items
-                if shared or inner:
-                    ctx.fail(f"C20/shared-default/{cls.__name__}.{f.name}",
-                             "two default-constructed instances share a mutable object",
-                             {"class": f"{mod.__name__}.{cls.__name__}", "field": f.name})
+            ra, rb = _reach(a), _reach(b)
+            shared = sorted(set(ra) & set(rb))
+            if shared:
+                path = ra[shared[0]]
+                ctx.fail(f"C20/shared-default/{cls.__name__}.{path.split('.')[0].split('[')[0]}",
+                         "two default-constructed instances share a mutable object",
+                         {"class": f"{mod.__name__}.{cls.__name__}", "path": path, "object": repr(_obj(a, path))[:80]})
     return n
+
+
+_MUT = (list, dict, set, bytearray)
+
+
+def _reach(root):
+    """id -> access path of every mutable object reachable from an element instance (fields, containers)."""
+    import attr
+    out = {}
+    seen = set()
+
+    def walk(v, path, depth):
+        if depth > 6 or id(v) in seen:
+            return
+        if isinstance(v, (str, bytes, int, float, bool, type(None), type)) or hasattr(v, "__members__"):
+            return
+        import enum
+        if isinstance(v, enum.Enum):
+            return
+        seen.add(id(v))
+        if isinstance(v, _MUT) or (attr.has(type(v)) and v is not root) or hasattr(v, "_items"):
+            out[id(v)] = path
+        if attr.has(type(v)):
+            for f in attr.fields(type(v)):
+                try:
+                    walk(getattr(v, f.name), f"{path}.{f.name}" if path else f.name, depth + 1)
+                except Exception:  # noqa
+                    pass
+        if hasattr(v, "_items"):
+            walk(v._items, path + "._items", depth + 1)
+        if isinstance(v, dict):
+            for k, x in list(v.items())[:50]:
+                walk(x, f"{path}[{k!r}]", depth + 1)
+        elif isinstance(v, (list, tuple, set)):
+            for i, x in enumerate(list(v)[:50]):
+                walk(x, f"{path}[{i}]", depth + 1)
+
+    walk(root, "", 0)
+    return out
+
+
+def _obj(root, path):
+    try:
+        return eval("root." + path if not path.startswith("[") else "root" + path, {"root": root})
+    except Exception:  # noqa
+        return None
 
 
 def replay(ctx, data):
